@@ -87,10 +87,9 @@ func p2Cases(id, tier string, seed int64, n int) []core.Case {
 		}
 		cs = append(cs, core.MkCase(fmt.Sprintf("%s-%d", kind, i), p2ScenParams{Seed: r.Int63(), Kind: kind}))
 	}
-	if tier == "thorough" {
-		for i := 0; i < 3; i++ {
-			cs = append(cs, core.MkCase(fmt.Sprintf("limit-32768-%d", i), p2ScenParams{Seed: r.Int63(), Kind: "limit"}))
-		}
+	// the format's limit: exactly 32768 slices (one set in the quick tier)
+	for i := 0; i < map[string]int{"quick": 1, "thorough": 3}[tier]; i++ {
+		cs = append(cs, core.MkCase(fmt.Sprintf("limit-32768-%d", i), p2ScenParams{Seed: r.Int63(), Kind: "limit"}))
 	}
 	return cs
 }
